@@ -76,9 +76,9 @@ const (
 )
 
 type event struct {
-	kind          int
+	kind           int
 	point, a, b, c int
-	msg           []bsmsg.Entry
+	msg            []bsmsg.Entry
 }
 
 const (
@@ -108,6 +108,8 @@ type ctl struct {
 	bw map[int]bool
 
 	sawCancelMsg, interleaved bool
+	snapTotal                 int
+	truncated                 bool
 }
 
 func (c *ctl) wait() event { return <-c.ev }
@@ -276,6 +278,7 @@ func (c *ctl) stepA() string {
 		panic(fmt.Sprintf("expected point 1, got %+v", e))
 	}
 	c.phase = phA
+	c.snapTotal = e.a + e.b + e.c
 	return fmt.Sprintf("A %d %d %d", e.a, e.b, e.c)
 }
 
@@ -289,6 +292,9 @@ func (c *ctl) stepB() string {
 		panic(fmt.Sprintf("expected point 2, got %+v", e))
 	}
 	c.phase = phB
+	if e.a+e.b+e.c < c.snapTotal {
+		c.truncated = true
+	}
 	return fmt.Sprintf("B %d %d %d", e.a, e.b, e.c)
 }
 
@@ -512,6 +518,12 @@ func exec(cs vh.Case, o *vh.Out) {
 		o.Kind(strings.Fields(tok)[0] + "-" + f[0])
 		if strings.HasPrefix(tok, "C [") && strings.Contains(tok, ":X") {
 			o.Kind("cancel-sent")
+		}
+		if c.truncated {
+			o.Kind("truncated")
+		}
+		if c.interleaved {
+			o.Kind("interleaved")
 		}
 		c.monitor(o)
 		if c.sawCancelMsg && c.interleaved {
